@@ -63,3 +63,92 @@ pub(crate) fn get_uvarint(data: &[u8]) -> Option<(u64, usize)> {
 	}
 	None
 }
+
+// ---------------------------------------------------------------------------------------------
+// decimal: "unscaled value's two's-complement big-endian representation"
+/// value of `bytes` (<= 16) as two's complement big-endian (sign-extended); empty = 0
+pub(crate) fn twos_complement(bytes: &[u8]) -> i128 {
+	let mut acc: u128 = if !bytes.is_empty() && bytes[0] & 0x80 != 0 { u128::MAX } else { 0 };
+	let mut i = 0;
+	while i < bytes.len() {
+		acc = (acc << 8) | bytes[i] as u128;
+		i += 1;
+	}
+	acc as i128
+}
+/// does `v` fit in `n` bytes of two's complement?
+pub(crate) fn fits_twos_complement(v: i128, n: usize) -> bool {
+	if n >= 16 {
+		return true;
+	}
+	if n == 0 {
+		return v == 0;
+	}
+	let bits = (8 * n) as u32;
+	let min = -(1i128 << (bits - 1));
+	let max = (1i128 << (bits - 1)) - 1;
+	v >= min && v <= max
+}
+
+// ---------------------------------------------------------------------------------------------
+// UTF-8 well-formedness (Unicode Standard table 3-7), written independently of core::str
+pub(crate) fn utf8_valid(b: &[u8]) -> bool {
+	let mut i = 0;
+	while i < b.len() {
+		let c = b[i];
+		let need;
+		let (lo, hi);
+		if c < 0x80 {
+			i += 1;
+			continue;
+		} else if c >= 0xC2 && c <= 0xDF {
+			need = 1;
+			lo = 0x80;
+			hi = 0xBF;
+		} else if c == 0xE0 {
+			need = 2;
+			lo = 0xA0;
+			hi = 0xBF;
+		} else if (c >= 0xE1 && c <= 0xEC) || c == 0xEE || c == 0xEF {
+			need = 2;
+			lo = 0x80;
+			hi = 0xBF;
+		} else if c == 0xED {
+			need = 2;
+			lo = 0x80;
+			hi = 0x9F;
+		} else if c == 0xF0 {
+			need = 3;
+			lo = 0x90;
+			hi = 0xBF;
+		} else if c >= 0xF1 && c <= 0xF3 {
+			need = 3;
+			lo = 0x80;
+			hi = 0xBF;
+		} else if c == 0xF4 {
+			need = 3;
+			lo = 0x80;
+			hi = 0x8F;
+		} else {
+			return false;
+		}
+		if i + need >= b.len() {
+			// not enough continuation bytes
+			return false;
+		}
+		let s = b[i + 1];
+		if s < lo || s > hi {
+			return false;
+		}
+		let mut k = 2;
+		while k <= need {
+			let t = b[i + k];
+			if t < 0x80 || t > 0xBF {
+				return false;
+			}
+			k += 1;
+		}
+		i += need + 1;
+	}
+	true
+}
